@@ -12,10 +12,10 @@ Import ListNotations.
    block list as the normalising first pass leaves it (non-empty; import blocks end with a newline and do not
    overlap; no import set binds a name twice; distinct block identities) and an analysis result that reports
    no star import as unused, the tool reaches its end and prints - every database, flag combination, renderer. *)
-Theorem C03_no_internal_error : forall (R : list import -> str) c fl known mand bs ms us,
+Theorem C03_no_internal_error : forall (R : list import -> str) (NC : str -> bool) c fl known mand bs ms us,
   f23 c = true -> f24 c = true -> f35 c = true -> f37 c = true ->
   inv bs -> ok_seq (iblocks bs) -> Forall (fun u => is_star (snd u) = false) us ->
-  exists bs' log t, fix_blocks c fl known mand bs ms us = Ok (bs', log) /\ pp R c bs' = Ok t.
+  exists bs' log t, fix_blocks c fl known mand bs ms us = Ok (bs', log) /\ pp R NC c bs' = Ok t.
 Proof. exact no_internal_error. Qed.
 Print Assumptions C03_no_internal_error.
 
@@ -35,7 +35,7 @@ Print Assumptions C03_no_internal_error_refuted_F23.
 Theorem C03_no_internal_error_refuted_F24 :
   inv w24_blocks /\ exists bs' log,
     fix_blocks unchanged fl_all (fun _ => []) [i_np] w24_blocks [] [] = Ok (bs', log) /\
-    forall R, pp R unchanged bs' = Err EConflict.
+    forall R NC, pp R NC unchanged bs' = Err EConflict.
 Proof. exact F24_refuted. Qed.
 Print Assumptions C03_no_internal_error_refuted_F24.
 
@@ -71,18 +71,35 @@ Theorem C03_no_gluing_refuted_F28 :
 Proof. exact F28_refuted. Qed.
 Print Assumptions C03_no_gluing_refuted_F28.
 
-Theorem C03_no_gluing_new_block_starts_a_line : forall (R : list import -> str) c ss rest bs' nb,
+Theorem C03_no_gluing_new_block_starts_a_line : forall (R : list import -> str) (NC : str -> bool) c ss rest bs' nb,
   f38 c = true -> first_nonprologue c ss false = None ->
   insert_new c (Other ss None :: rest) = Ok (bs', nb) ->
-  exists pro t, bs' = (pro ++ Imps nb :: sep_block :: rest)%list /\ pp R c pro = Ok t /\ (t = [] \/ ends_nl t = true).
+  exists pro t, bs' = (pro ++ Imps nb :: sep_block :: rest)%list /\ pp R NC c pro = Ok t /\ (t = [] \/ ends_nl t = true).
 Proof. exact new_block_starts_a_line. Qed.
 Print Assumptions C03_no_gluing_new_block_starts_a_line.
 
 Theorem C03_no_gluing_refuted_F38 :
   exists nb, insert_new unchanged w38_blocks = Ok ((w38_blocks ++ [Imps nb; sep_block])%list, nb) /\
-             forall R, pp R unchanged w38_blocks = Ok (dec "# c"%string) /\ ends_nl (dec "# c"%string) = false.
+             forall R NC, pp R NC unchanged w38_blocks = Ok (dec "# c"%string) /\ ends_nl (dec "# c"%string) = false.
 Proof. exact F38_refuted. Qed.
 Print Assumptions C03_no_gluing_refuted_F38.
+
+(* F45: an import block that continues a line really continued by a backslash (`x = 1; \` / `import foo`) never
+   prints the empty string (which would leave the backslash dangling at the end of the logical line).  "Really
+   continued" = the previous block's text ends with backslash-newline AND the tokenizer finds no comment ending on
+   its last line (oracle NC; `prev` of pp_from is exactly ends_bsnl t && NC t); a backslash that ends a comment
+   continues nothing and nothing is printed for it (third part of the witness theorem). *)
+Theorem C03_no_gluing_after_backslash : forall (R : list import -> str) (NC : str -> bool) c b rest t,
+  f45 c = true -> pp_from R NC c true (Imps b :: rest) = Ok t -> t <> [].
+Proof. exact emptied_block_after_backslash. Qed.
+Print Assumptions C03_no_gluing_after_backslash.
+
+Theorem C03_no_gluing_refuted_F45 :
+  pp (fun _ => []) (fun _ => true) unchanged w45_blocks = Ok (dec "x = 1; $5c;$a;"%string) /\
+  pp (fun _ => []) (fun _ => true) repaired w45_blocks = Ok (dec "x = 1; $5c;$a;$a;"%string) /\
+  pp (fun _ => []) (fun _ => false) repaired w45c_blocks = Ok (dec "    # c $5c;$a;"%string).
+Proof. exact F45_refuted. Qed.
+Print Assumptions C03_no_gluing_refuted_F45.
 
 (* future_first.  A __future__ import joins only a block that already holds an import whose first component is
    __future__; otherwise a new block is created, in front of which there are only comment / blank / string
@@ -128,26 +145,26 @@ Print Assumptions C03_future_first_refuted_F40.
    Proved: the second-pass analysis and edit see exactly the text the first pass printed; and reformat is a fixed
    point whenever the statement splitter re-finds blocks that print alike in the printed text. *)
 Theorem C03_tidy_analyses_first_pass_output :
-  forall (R : list import -> str) (parse : str -> list block)
+  forall (R : list import -> str) (NC : str -> bool) (parse : str -> list block)
          (scan : str -> bool -> list (nat * str) * list (nat * import)) c fl known mand bs0 t1,
-  pp R c bs0 = Ok t1 ->
-  tidy R parse scan c fl known mand bs0 =
+  pp R NC c bs0 = Ok t1 ->
+  tidy R NC parse scan c fl known mand bs0 =
     match fix_blocks c fl known mand (parse t1) (fst (scan t1 (remove_unused fl))) (snd (scan t1 (remove_unused fl))) with
     | Err e => Err e
-    | Ok (bs2, _) => pp R c bs2
+    | Ok (bs2, _) => pp R NC c bs2
     end.
 Proof. exact tidy_analyses_first_pass_output. Qed.
 Print Assumptions C03_tidy_analyses_first_pass_output.
 
-Theorem C03_reformat_fixed_point_open : forall (R : list import -> str) (parse : str -> list block) c bs0 t,
-  reformat R c bs0 = Ok t -> Forall2 (block_equiv R) (parse t) bs0 -> reformat R c (parse t) = Ok t.
+Theorem C03_reformat_fixed_point_open : forall (R : list import -> str) (NC : str -> bool) (parse : str -> list block) c bs0 t,
+  reformat R NC c bs0 = Ok t -> Forall2 (block_equiv R) (parse t) bs0 -> reformat R NC c (parse t) = Ok t.
 Proof. exact reformat_fixed_point_open. Qed.
 Print Assumptions C03_reformat_fixed_point_open.
 
 Example C03_no_internal_error_nonvacuous :
   inv wnv_blocks /\ ok_seq (iblocks wnv_blocks) /\
   exists bs' log t, fix_blocks repaired fl_all known_np [i_div; i_os] wnv_blocks [(3, dec "np.alpha"%string)] [(1, i_qq)] = Ok (bs', log)
-                    /\ pp (fun l => List.concat (map i_as l)) repaired bs' = Ok t.
+                    /\ pp (fun l => List.concat (map i_as l)) (fun _ => true) repaired bs' = Ok t.
 Proof. exact no_internal_error_nonvacuous. Qed.
 Example C03_repaired_witnesses :
   (exists bs', fix_blocks repaired fl_all (fun _ => []) [i_np] w24_blocks [] [] = Ok (bs', [(i_np, None, Refused)])) /\
